@@ -282,6 +282,20 @@ pub fn check_tiling(t: &Torrent, o: &Outcome, a: &str, stats: &mut HashMap<&'sta
             }
         }
     }
+    // quiescent end: an assignment with blocks still missing has something requested (a request the
+    // peer dropped when it choked counts as not requested: the client has to ask again)
+    if let Some(x) = &ep {
+        let choked_now = snap.as_ref().and_then(|s| s.peers.iter().find(|p| p.addr == a)).map(|p| p.choked).unwrap_or(true);
+        let quiet = x.last_answer_ms + 2_000 < o.end_ms && o.events.iter().rev().find(|e| e.addr == a && matches!(e.kind, EvKind::PeerSent { .. } | EvKind::Send { .. })).map(|e| e.ms + 2_000 < o.end_ms).unwrap_or(true);
+        let still_assigned = snap.as_ref().and_then(|s| s.peers.iter().find(|p| p.addr == a)).map(|p| p.piece_index == Some(x.piece)).unwrap_or(false);
+        if !closed && !x.done && !x.cancelled && !choked_now && quiet && still_assigned {
+            let missing: Vec<(u32, u32)> = (0..x.tiles.len()).filter(|k| !x.answered[*k] && !x.pre[*k]).map(|k| x.tiles[k]).collect();
+            *stats.entry("quiescent_assignments_checked_for_stall").or_default() += 1;
+            if !missing.is_empty() && x.outstanding.is_empty() {
+                return Some(Finding { sig: "C10:blocks-missing-but-nothing-requested".into(), what: format!("piece {} is assigned to {} (which is not choking), blocks {:?} were never received and no request for any of them is outstanding: the piece can never complete", x.piece, a, missing), at_seq: x.start_seq });
+            }
+        }
+    }
     // quiescent end: every accepted block was followed by a further request while tiles remained,
     // and a fully answered piece was completed
     if let Some(x) = &ep {
